@@ -259,3 +259,162 @@ UNITS = [
     Unit("PollExecutor._run_cancel_fn", "poll.PollExecutor._run_cancel_fn", ["C08", "C02", "C06", "C18"], _setup_cancel_fn, _post_cancel_fn,
          cfg=_cfg_cancel_fn, self_cls="PollExecutor"),
 ]
+
+
+# ---- PollFuture: constructor order, done-callback of the delegate, deregistration ----------------------------
+def _cfg_fut():
+    cfg = _cfg()
+    # PollFuture._delegate: written by the constructor and by _clear_delegate, whose only caller is _register_poll, itself
+    # called only from this future's _delegate_resolved (F3: once);  PollFuture._executor: cleared only by the future's own
+    # done-callback.  (writer / caller sets re-checked by the static FR obligations below)
+    cfg.stable |= {"_delegate", "_executor"}
+    cfg.contracts["more_executors._impl.poll.PollExecutor._register_poll"] = RecordCall()
+    cfg.contracts["more_executors._impl.poll.PollExecutor._deregister_poll"] = RecordCall()
+    cfg.contracts["more_executors._impl.poll.PollFuture._delegate_resolved"] = RecordCall()
+    return cfg
+
+
+def _setup_pf_init(engine, st):
+    # the object under construction is fresh: private to the constructing thread until the constructor publishes it
+    oid = st.alloc("PollFuture")
+    st.assume(cls_of(z3.IntVal(oid)) == engine.tag("PollFuture"))
+    me = Z(ref(oid), INST("PollFuture"))
+    d = sym_val(engine, st, "future", "delegate")
+    ex = sym_inst(engine, st, "PollExecutor", "executor")
+    return [me, d, ex], {}, {"me": me, "d": d, "ex": ex}
+
+
+def _post_pf_init(engine, st, ctx, out):
+    sid = Val.id(ctx["me"].t)
+    regs = [(i, e) for i, e in enumerate(st.trace) if e.kind == "register-cb"]
+    own = [(i, e) for i, e in enumerate(st.trace) if e.kind == "mutate" and e.meth == "append" and "add_done_callback" in (e.site or "")]
+    cl = [("the constructor does not raise", "EX", not isinstance(out, Raise), ["C08", "C18"])]
+    on_d = [(i, e) for (i, e) in regs if z3.is_true(z3.simplify(e.recv == Val.id(ctx["d"].t)))]
+    cl.append(("exactly one done-callback is registered on the delegate's future", "PC", z3.BoolVal(len(on_d) == 1), ["C08", "C03"]))
+    # the future's own deregistration callback must be in place BEFORE the future can be published to the poll
+    # thread (registration on the delegate publishes it: an already finished delegate runs _delegate_resolved
+    # -> _register_poll at once).  Otherwise a future resolved in that window is never deregistered: the poll function
+    # keeps receiving a descriptor of an already resolved future.
+    cl.append(("the deregistration callback (_clear_executor) is registered before the future is published through the delegate's callback", "PC",
+               z3.BoolVal(bool(own) and bool(on_d) and own[0][0] < on_d[0][0]), ["C08", "C12"]))
+    if own:
+        from pyvc.vals import Bound, Func
+        cbv = own[0][1].args[0]
+        cid = engine.concrete_id(z3.simplify(cbv))
+        cb = st.objreg.get(cid)
+        okcb = isinstance(cb, Bound) and isinstance(cb.func, Func) and cb.func.qualname.endswith("PollFuture._clear_executor")
+        cl.append(("that callback is PollFuture._clear_executor", "PC", z3.BoolVal(okcb), ["C08", "C12"]))
+    return cl
+
+
+def _setup_pf_resolved(engine, st):
+    me = sym_inst(engine, st, "PollFuture", "self")
+    sid = Val.id(me.t)
+    d = sym_val(engine, st, "future", "delegate")
+    did = Val.id(d.t)
+    st.assume(st.get("_delegate", sid) == d.t)
+    st.assume(st.done(did))
+    st.assume(z3.Or(st.pending(sid), st.cancelled(sid)))
+    # while its delegate is linked and not cancelled, a PollFuture cannot be cancelled: _me_cancel asks the delegate
+    # first and gives up when the delegate refuses (contract of _Future.cancel[PollFuture])
+    st.assume(z3.Implies(z3.Not(st.cancelled(did)), st.pending(sid)))
+    ex = engine.typed(st, st.get("_executor", sid), OPT(INST("PollExecutor")))
+    st.assume(z3.Implies(st.pending(sid), z3.Not(Val.is_none(ex.t))))       # a pending future keeps its executor (cleared by its own done-callback)
+    from .base import own_future_may_only_be_cancelled
+    base = own_future_may_only_be_cancelled(engine, [sid])
+
+    def rely(engine_, st_, old, why):
+        base(engine_, st_, old, why)
+        if "$fstate" in old:
+            st_.assume(z3.Implies(z3.Not(st_.cancelled(did)), st_.fstate(sid) == z3.Select(old["$fstate"], sid)))
+        # _executor is cleared only by the future's own done-callback: while pending it stays
+        if "_executor" in old:
+            st_.assume(z3.Implies(st_.pending(sid), st_.get("_executor", sid) == z3.Select(old["_executor"], sid)))
+    engine.cfg.after_interfere = rely
+    return [me, d], {}, {"me": me, "sid": sid, "d": d, "did": did, "d_cancelled": st.cancelled(did), "d_exc": st.fexc(did), "ex": ex.t}
+
+
+def _post_pf_resolved(engine, st, ctx, out):
+    sid = ctx["sid"]
+    regs = [e for e in st.trace if e.kind == "repo-call" and e.meth.endswith("._register_poll")]
+    res = [e for e in st.trace if e.kind == "resolve"]
+    cl = [("no exception escapes the delegate's done-callback (a future cancelled meanwhile is tolerated)", "EX",
+           z3.Or(z3.BoolVal(not isinstance(out, Raise)), st.cancelled(sid)) if not isinstance(out, Raise) else z3.BoolVal(False), ["C08", "C18"])]
+    cl.append(("SP: a delegate cancelled by someone else ends the polled future too (cancelled, never left pending)", "SP",
+               z3.Implies(ctx["d_cancelled"], st.cancelled(sid)), ["C03"]))
+    fail = z3.And(z3.Not(ctx["d_cancelled"]), z3.Not(Val.is_none(ctx["d_exc"])))
+    succ = z3.And(z3.Not(ctx["d_cancelled"]), Val.is_none(ctx["d_exc"]))
+    cl.append(("a failed delegate fails the future with the delegate's own exception object, without polling", "PC",
+               z3.Implies(fail, z3.And(z3.BoolVal(not regs), z3.Or(st.cancelled(sid), z3.And(st.finished(sid), st.fexc(sid) == ctx["d_exc"])))), ["C08", "C01"]))
+    cl.append(("a successfully finished delegate moves the future to the polling stage (registered exactly once, with this future and its delegate)", "PC",
+               z3.Implies(succ, z3.Or(st.cancelled(sid) if not regs else z3.BoolVal(False),
+                                      z3.And(z3.BoolVal(len(regs) == 1 and not res), regs[0].args[1] == ctx["me"].t, regs[0].args[2] == ctx["d"].t)
+                                      if regs else z3.BoolVal(False))), ["C08", "C03"]))
+    cl.append(("nothing is registered for polling unless the delegate finished successfully", "PC", z3.Implies(z3.Not(succ), z3.BoolVal(not regs)), ["C08"]))
+    return cl
+
+
+def _setup_pf_clear(engine, st):
+    me = sym_inst(engine, st, "PollFuture", "future")
+    sid = Val.id(me.t)
+    ex = engine.typed(st, st.get("_executor", sid), INST("PollExecutor"))
+    from pyvc.vals import Cls
+    return [Cls("PollFuture"), me], {}, {"me": me, "sid": sid, "ex": ex}
+
+
+def _post_pf_clear(engine, st, ctx, out):
+    dereg = [(i, e) for i, e in enumerate(st.trace) if e.kind == "repo-call" and e.meth.endswith("._deregister_poll")]
+    wr = [(i, e) for i, e in enumerate(st.trace) if e.kind == "write" and e.meth == "_executor"]
+    return [("a resolved future is deregistered from its executor exactly once, then drops its reference to the executor", "PC",
+             z3.And(z3.BoolVal(not isinstance(out, Raise) and len(dereg) == 1 and len(wr) == 1 and dereg[0][0] < wr[0][0]),
+                    dereg[0][1].args[0] == ctx["ex"].t if dereg else False, dereg[0][1].args[1] == ctx["me"].t if dereg else False,
+                    Val.is_none(st.get("_executor", ctx["sid"]))), ["C08", "C12"])]
+
+
+# ---- _poll_loop: one iteration -------------------------------------------------------------------------------
+def _cfg_loop():
+    cfg = _cfg()
+    cfg.contracts["more_executors._impl.poll.PollExecutor._run_poll_fn"] = RecordCall(ret_fn=lambda e, s: Z(fresh("next_sleep", Val), "any"))
+
+    def body_post(engine, st, fr, ctx, events):
+        polls = [i for i, e in enumerate(events) if e.kind == "repo-call" and e.meth.endswith("._run_poll_fn")]
+        waits = [(i, e) for i, e in enumerate(events) if e.kind == "event-wait"]
+        clears = [i for i, e in enumerate(events) if e.kind == "event-clear"]
+        out = [("exactly one poll per iteration, then wait, then clear (W2: scan - wait - clear)",
+                z3.BoolVal(len(polls) == 1 and len(waits) == 1 and len(clears) == 1 and polls[0] < waits[0][0] < clears[0] and clears[0] == len(events) - 1))]
+        if waits:
+            w = waits[0][1]
+            out.append(("the thread holds no lock and no strong reference to its executor while it waits",
+                        z3.BoolVal(not w.held and st.lookup_env(fr.eid, "executor") is None)))
+            tmo = w.args[0]
+            tv = engine.to_val(st, tmo)
+            out.append(("the wait is bounded by the delay the poll function asked for, or else the default interval (never unbounded)",
+                        z3.Not(Val.is_none(tv))))
+        return out
+    cfg.loops[("more_executors._impl.poll._poll_loop", 0)] = LoopSpec(body_post=body_post)
+    return cfg
+
+
+def _setup_loop(engine, st):
+    ex = sym_inst(engine, st, "PollExecutor", "executor")
+    oid = st.alloc("weakref", private=False)
+    st.assume(cls_of(z3.IntVal(oid)) == engine.tag("weakref"))
+    st.put("$referent", oid, ex.t)
+    return [Z(ref(oid), ("weakref", INST("PollExecutor")))], {}, {"ex": ex}
+
+
+def _post_loop(engine, st, ctx, out):
+    if isinstance(out, Raise):
+        return [("the poll thread never dies from an exception", "EX", z3.BoolVal(False), ["C18", "C08"])]
+    why = [a for a, b in st.decisions if b and ("not executor" in a or "is_shutdown" in a)]
+    return [("the loop ends only when the executor is gone, shut down, or the interpreter exits", "PC", z3.BoolVal(bool(why)), ["C11", "C12"])]
+
+
+UNITS += [
+    Unit("PollFuture.__init__", "poll.PollFuture.__init__", ["C08", "C03", "C12", "C18"], _setup_pf_init, _post_pf_init, cfg=_cfg_fut, self_cls="PollFuture"),
+    Unit("PollFuture._delegate_resolved", "poll.PollFuture._delegate_resolved", ["C08", "C01", "C03", "C18"], _setup_pf_resolved, _post_pf_resolved,
+         cfg=lambda: (lambda c: (c.contracts.pop("more_executors._impl.poll.PollFuture._delegate_resolved"), c)[1])(_cfg_fut()), self_cls="PollFuture"),
+    Unit("PollFuture._clear_executor", "poll.PollFuture._clear_executor", ["C08", "C12"], _setup_pf_clear, _post_pf_clear, cfg=_cfg_fut, self_cls="PollFuture"),
+    Unit("_poll_loop", "poll._poll_loop", ["C08", "C03", "C11", "C12", "C18"], _setup_loop, _post_loop, cfg=_cfg_loop),
+]
+REPLAYS = [("C03", "SP: a delegate cancelled by someone else ends the polled future", "replay/c03_delegate_cancelled_outside.py")]
